@@ -178,7 +178,7 @@ def run(tier, seed):
             violations += r.pop("violations")
             samples += [{"driver": drv, "history": h} for h in r.pop("samples")[:1]]
             fam[drv] = r
-        r = contexp.bfs(pool, "c20", cfg, "h5", 1 if q else 2, budget_s=budget, t0=t0, start=c06.starts(cfg)["rich"])
+        r = contexp.bfs(pool, "c20", cfg, "h5", 2 if q else 3, budget_s=budget, t0=t0, start=c06.starts(cfg)["rich"])
         violations += r.pop("violations")
         fam["h5-from-rich"] = r
     cov = {
